@@ -59,9 +59,9 @@ func AfterBlock() {
 	s.resync(t, true)
 }
 
-func After1[A any](a A) A                         { AfterBlock(); return a }
-func After2[A, B any](a A, b B) (A, B)            { AfterBlock(); return a, b }
-func After3[A, B, C any](a A, b B, c C) (A, B, C) { AfterBlock(); return a, b, c }
+func After1[A any](a A) A                         { AfterBlock(); Yield(-1); return a }
+func After2[A, B any](a A, b B) (A, B)            { AfterBlock(); Yield(-1); return a, b }
+func After3[A, B, C any](a A, b B, c C) (A, B, C) { AfterBlock(); Yield(-1); return a, b, c }
 
 // Sleep replaces time.Sleep.
 func Sleep(site int, d time.Duration) {
